@@ -211,7 +211,7 @@ type Conn struct {
 	paddingLengthGenerator  func(uint) uint
 
 	handshakeEstablished *dtlshandshake.Establishment
-	handshakeMutex       sync.Mutex
+	handshakeMutex       contextMutex
 	handshakeDone        chan struct{}
 	writeLock            sync.Mutex
 
@@ -338,7 +338,15 @@ func (c *Conn) Handshake() error {
 //
 //nolint:cyclop
 func (c *Conn) HandshakeContext(ctx context.Context) error {
-	c.handshakeMutex.Lock()
+	// Another goroutine may be inside the handshake, for as long as the peer
+	// takes. Waiting for it is part of this call and ends with its context,
+	// which for Read and Write is their deadline.
+	if c.isHandshakeCompletedSuccessfully() {
+		return nil
+	}
+	if err := c.handshakeMutex.Lock(ctx); err != nil {
+		return err
+	}
 	defer c.handshakeMutex.Unlock()
 
 	if c.isHandshakeCompletedSuccessfully() {
@@ -805,6 +813,32 @@ func (c *Conn) Close() error {
 	}
 
 	return err
+}
+
+// contextMutex is a mutex whose Lock gives up when a context ends. The zero
+// value is unlocked.
+type contextMutex struct {
+	once   sync.Once
+	locked chan struct{}
+}
+
+func (m *contextMutex) Lock(ctx context.Context) error {
+	m.once.Do(func() { m.locked = make(chan struct{}, 1) })
+	select {
+	case m.locked <- struct{}{}:
+		return nil
+	default:
+	}
+	select {
+	case m.locked <- struct{}{}:
+		return nil
+	case <-ctx.Done():
+		return ctx.Err()
+	}
+}
+
+func (m *contextMutex) Unlock() {
+	<-m.locked
 }
 
 // implicitHandshakeContext is the context Read and Write run the implicit
